@@ -831,6 +831,18 @@ def o_icdf_tail(spec, seed, ps):
     return None
 
 
+def location_dep_specs(rng):
+    """three-parameter Weibulls (and a ScipyDistribution weibull_min) whose LOCATION is a dependence function of the
+    conditioning variable: the lower end of the support of the conditional variable moves with the conditioning value"""
+    u = rng.uniform
+    w0 = {"fam": "W", "cond": None, "params": {"alpha": ["val", u(1.5, 2.5)], "beta": ["val", u(1.3, 2.5)], "gamma": ["val", 0.0]}}
+    wg = lambda c: {"fam": "W", "cond": c, "params": {"alpha": ["fix", u(1.0, 2.0)], "beta": ["fix", u(1.3, 2.5)], "gamma": ["dep", "lin", [u(0.3, 0.8), u(0.4, 0.9)]]}}
+    wg2 = lambda c: {"fam": "W", "cond": c, "params": {"alpha": ["dep", "sat", [1.0, 1.0]], "beta": ["fix", u(1.3, 2.5)], "gamma": ["dep", "asym", [0.5, 1.5, 0.8]]}}
+    sw = lambda c: {"fam": "SW", "cond": c, "params": {"c": ["fix", u(1.3, 2.5)], "loc": ["dep", "lin", [u(0.2, 0.6), u(0.3, 0.8)]], "scale": ["fix", u(1.0, 2.0)]}}
+    ln = lambda c: {"fam": "LN", "cond": c, "params": {"mu": ["dep", "lin", [0.3, 0.2]], "sigma": ["fix", 0.4]}}
+    return [{"dims": [dict(w0), wg(0)]}, {"dims": [dict(w0), wg2(0), ln(1)]}, {"dims": [dict(w0), sw(0), wg(1)]}]
+
+
 def mc_size_py(ps, pf):
     p_small = min(min(ps), 1 - max(ps))
     return max(int((1 / p_small) * (100 * pf)), 100000)
@@ -1020,11 +1032,14 @@ def run(ctx):
             if d["cond"] != c:
                 d.update(M.rand_dim(rng, d["fam"], c))
         specs.append(sp)
+    specs = location_dep_specs(rng) + specs      # first: they also reach the real-nquad and multi-point stages
     dist = {}
     for sp in specs:
         k = "%dD %s" % (len(sp["dims"]), list(M.structure(sp)))
         dist[k] = dist.get(k, 0) + 1
     ctx.notes["input_distribution"] = {"models_by_structure": dist,
+                                       "dependent_location_parameters": sum(1 for sp in specs for d in sp["dims"] for k2, v in d["params"].items()
+                                                                            if k2 in ("gamma", "loc") and v[0] == "dep"),
                                        "families": sorted({d["fam"] for sp in specs for d in sp["dims"]})}
 
     import time as _t
